@@ -62,6 +62,8 @@ pub enum Op {
     WriteTo,
     TextUtf8,
     Text,
+    /// write_to() into a writer that takes at most 3 bytes per write call
+    WriteToShort,
 }
 
 impl Op {
@@ -374,7 +376,7 @@ impl<'a> Exec<'a> {
                     }
                 }
             }
-            Op::Bytes | Op::WriteTo | Op::TextUtf8 | Op::Text => {
+            Op::Bytes | Op::WriteTo | Op::TextUtf8 | Op::Text | Op::WriteToShort => {
                 let resp = self.resp.take().unwrap();
                 self.over = true;
                 let name = format!("{op:?}");
@@ -386,6 +388,23 @@ impl<'a> Exec<'a> {
                             let n = resp.write_to(&mut v)?;
                             assert_eq!(n as usize, v.len(), "write_to count");
                             Ok(v)
+                        }
+                        Op::WriteToShort => {
+                            struct Short(Vec<u8>);
+                            impl std::io::Write for Short {
+                                fn write(&mut self, b: &[u8]) -> std::io::Result<usize> {
+                                    let n = b.len().min(3);
+                                    self.0.extend_from_slice(&b[..n]);
+                                    Ok(n)
+                                }
+                                fn flush(&mut self) -> std::io::Result<()> {
+                                    Ok(())
+                                }
+                            }
+                            let mut w = Short(Vec::new());
+                            let n = resp.write_to(&mut w)?;
+                            assert_eq!(n as usize, w.0.len(), "write_to count");
+                            Ok(w.0)
                         }
                         Op::TextUtf8 => resp.text_utf8().map(|s| s.into_bytes()),
                         Op::Text => resp.text().map(|s| s.into_bytes()),
@@ -420,7 +439,7 @@ impl<'a> Exec<'a> {
                         // how many raw bytes does `got` stand for? find the prefix of rest_all whose
                         // conversion equals got (for the byte terminals that is got itself)
                         let mut matched = None;
-                        if matches!(op, Op::Bytes | Op::WriteTo) {
+                        if matches!(op, Op::Bytes | Op::WriteTo | Op::WriteToShort) {
                             if got.len() <= rest_all.len() && rest_all[..got.len()] == got[..] {
                                 matched = Some(got.len());
                             }
@@ -519,6 +538,9 @@ pub fn explore(ctx: &Ctx, case: &Case, rank: u64) -> Stats {
     let mut ops: Vec<Op> = case.sizes.iter().map(|&k| Op::Read(k)).collect();
     if case.terminals {
         ops.extend([Op::Bytes, Op::WriteTo, Op::TextUtf8, Op::Text]);
+        if case.wire.len <= 70_000 {
+            ops.push(Op::WriteToShort);
+        }
     }
     let max_after_err = 3u8;
     let max_after_eof = 2u8;
